@@ -115,7 +115,14 @@ ExtractName(kids) == [i \in 1 .. Len(kids) |-> [t |-> kids[i].t, runs |-> kids[i
 \* ------------------------------------------------------------------ alphabets
 B(v)      == <<R(v, 1)>>
 Bad(e)    == [e EXCEPT !.fits = FALSE]
-Trunc     == [t |-> <<>>, leaf |-> TRUE, fits |-> FALSE, n |-> 0, runs |-> <<>>, kids |-> <<>>]
+\* cut headers (TlvModel.Cut): a lone 0xFD; a complete 1-byte Type followed by a 3-byte Length with one byte
+\* missing; a 3-byte Type with its last byte missing; a 5-byte Length cut; a complete 3-byte Type (Nack) whose
+\* Length number is cut
+Trunc       == Cut(<<253>>)
+CutLen(t)   == Cut(<<t, 253, 0>>)
+CutType     == Cut(<<253, 3>>)
+CutLen5(t)  == Cut(<<t, 254, 0, 0>>)
+CutNackLen  == Cut(<<253, 3, 32, 253, 0>>)
 CompA     == Leaf(N(8), 1, B(97))
 NameOk    == Node(N(7), <<CompA>>)
 NameEmpty == Node(N(7), <<>>)
@@ -144,7 +151,8 @@ InterestBody ==
     NameTwo, Node(N(30), <<UnkCrit>>), Node(N(30), <<NameOk, NameBadComp>>), Leaf(N(34), 1, B(64)), Leaf(N(12), 0, <<>>),
     SigInfoKl(N(44)), SigInfoUnkCrit(N(44)), Leaf(N(33), 1, B(1)),
     SigInfoDup(N(44)), SigInfoOoo(N(44)), SigInfoNcIn(N(44)), Node(N(30), <<NameOk, UnkNonCrit, NameTwo>>)>>
-InterestTail == <<Bad(Leaf(N(36), 2, <<R(7, 2)>>)), Trunc, Bad(NameOk), Bad(Leaf(N(12), 2, <<R(1, 2)>>)), Bad(SigInfoOk(N(44)))>>
+InterestTail == <<Bad(Leaf(N(36), 2, <<R(7, 2)>>)), Trunc, Bad(NameOk), Bad(Leaf(N(12), 2, <<R(1, 2)>>)), Bad(SigInfoOk(N(44))),
+                  CutLen(36), CutType, Node(N(44), <<Leaf(N(27), 1, B(0)), CutLen(40)>>), Node(N(7), <<CompA, CutLen(8)>>)>>
 
 MetaOk  == Node(N(20), <<Leaf(N(24), 1, B(0)), Leaf(N(25), 2, <<R(3, 1), R(232, 1)>>)>>)
 MetaFbi == Node(N(20), <<Leaf(N(25), 1, B(10)), Leaf(N(26), 3, <<R(50, 1), R(1, 1), R(9, 1)>>)>>)
@@ -157,7 +165,8 @@ DataBody ==
     NameTwo, MetaFbi, MetaOoo, Node(N(20), <<>>), SigInfoKl(N(22)), SigInfoBadWidth(N(22)), Leaf(N(23), 0, <<>>),
     SigInfoDup(N(22)), SigInfoOoo(N(22)), Node(N(20), <<Leaf(N(24), 1, B(0)), Leaf(N(24), 1, B(2))>>),
     Node(N(20), <<Leaf(N(24), 1, B(0)), UnkCrit>>)>>
-DataTail == <<Bad(Leaf(N(21), 3, <<R(65, 3)>>)), Trunc, Bad(NameOk), Bad(MetaOk), Bad(Leaf(N(23), 4, <<R(5, 4)>>))>>
+DataTail == <<Bad(Leaf(N(21), 3, <<R(65, 3)>>)), Trunc, Bad(NameOk), Bad(MetaOk), Bad(Leaf(N(23), 4, <<R(5, 4)>>)),
+              CutLen(21), CutLen5(23), Node(N(20), <<Leaf(N(24), 1, B(0)), CutLen(25)>>), Node(N(22), <<Leaf(N(27), 1, B(0)), CutType>>)>>
 
 Validity == Node(N(253), <<Leaf(N(254), 15, <<R(49, 15)>>), Leaf(N(255), 15, <<R(50, 15)>>)>>)
 CertSigOk == Node(N(22), <<Leaf(N(27), 1, B(3)), Node(N(28), <<NameOk>>), Validity>>)
@@ -171,7 +180,8 @@ CertBody ==
     NameEmpty, MetaOverrun, SigInfoOk(N(22)), SigInfoUnkCrit(N(22)), SigInfoBadWidth(N(22)),
     SigInfoDup(N(22)), SigInfoOoo(N(22)),
     Node(N(22), <<Leaf(N(27), 1, B(3)), Node(N(253), <<Leaf(N(255), 15, <<R(50, 15)>>), Leaf(N(254), 15, <<R(49, 15)>>)>>)>>)>>
-CertTail == <<Bad(Leaf(N(21), 3, <<R(48, 3)>>)), Trunc, Bad(CertSigOk)>>
+CertTail == <<Bad(Leaf(N(21), 3, <<R(48, 3)>>)), Trunc, Bad(CertSigOk), CutLen(21),
+              Node(N(22), <<Leaf(N(27), 1, B(3)), Node(N(253), <<Leaf(N(254), 15, <<R(49, 15)>>), CutLen(255)>>)>>)>>
 
 NackOk == Node(N(800), <<Leaf(N(801), 1, B(150))>>)
 LpBody ==
@@ -182,11 +192,13 @@ LpBody ==
     Leaf(N(83), 1, B(1)), Node(N(800), <<Bad(Leaf(N(801), 1, B(150)))>>), Node(N(820), <<Leaf(N(821), 1, B(1))>>),
     Leaf(N(844), 0, <<>>), Leaf(N(848), 2, <<R(6, 1), R(0, 1)>>), Leaf(N(81), 8, <<R(0, 8)>>), Leaf(N(816), 1, B(9)),
     Leaf(N(80), 0, <<>>)>>
-LpTail == <<Bad(Leaf(N(80), 5, <<R(5, 5)>>)), Trunc, Bad(NackOk), Bad(Leaf(N(812), 2, <<R(1, 2)>>))>>
+LpTail == <<Bad(Leaf(N(80), 5, <<R(5, 5)>>)), Trunc, Bad(NackOk), Bad(Leaf(N(812), 2, <<R(1, 2)>>)),
+            CutLen(80), CutNackLen, CutType, CutLen5(98), Node(N(800), <<CutLen(80)>>), Node(N(800), <<Cut(<<253, 3, 33, 253, 0>>)>>),
+            Node(N(800), <<Leaf(N(801), 1, B(150)), CutType>>)>>
 
 NameBody == <<CompA, Leaf(N(8), 0, <<>>), Leaf(N(54), 2, <<R(1, 1), R(0, 1)>>), Leaf(N(1), 32, <<R(170, 32)>>),
               Leaf(N(65535), 1, B(1)), Leaf(N(0), 1, B(1)), Leaf(N(8), 253, <<R(120, 253)>>)>>
-NameTail == <<Bad(Leaf(N(8), 1, B(98))), Trunc, Bad(Leaf(N(8), 0, <<>>))>>
+NameTail == <<Bad(Leaf(N(8), 1, B(98))), Trunc, Bad(Leaf(N(8), 0, <<>>)), CutLen(8), CutType>>
 
 BodyOf(pk) == CASE pk = "interest" -> InterestBody [] pk = "data" -> DataBody [] pk = "cert" -> CertBody
                 [] pk = "lp" -> LpBody [] pk = "name" -> NameBody
